@@ -81,12 +81,25 @@ def _run_config(args):
                     sol.add(z3.Or(values_of(final) != values_of(base), final.f[F_DURATION].f[0].t != n0))
                     c = sol.check() if same_rest else z3.sat
                 if c == z3.unsat: res['discharged'] += 1
-                elif c == z3.sat: res['sat'].append(dict(ops=[list(o) for o in ops], tail=tail, final=str(values_of(final))[:100]))
+                elif c == z3.sat:
+                    dtb = None
+                    if same_rest_ok(tail, locals()):
+                        try:
+                            mdl = sol.model()
+                            dtb = [z3.simplify(z3.fpToIEEEBV(mdl.eval(d, model_completion=True))).as_long() for d in dts]
+                        except Exception:
+                            dtb = None
+                    res['sat'].append(dict(ops=[list(o) for o in ops], tail=tail, final=str(values_of(final))[:100], dts=dtb))
                 else: res['problems'].append(f'{ops}: solver unknown')
                 if res['sample'] is None and tail == 'split2':
                     res['sample'] = f'{ops}: final values {str(values_of(final))[:160]}'
     res['fns'] = {k: f.text_hash for k, f in m.fns_used.items()}; res['models'] = sorted(m.models_used)
     return res
+
+
+def same_rest_ok(tail, loc):
+    # a model exists only when the solver was actually asked
+    return tail != 'zero' or loc.get('same_rest')
 
 
 def duration_lemmas(check, tier):
@@ -181,30 +194,47 @@ def main(tier):
         if ob.result.status == 'sat':
             check.inconclusive.append(f'{ob.name}: sat {ob.result.model} (Duration model lemma; not a statement about mina)')
     sats = sorted([(len(s['ops']), r['config'], s) for r in results for s in r['sat']], key=lambda x: (x[0], str(x[1])))
-    done = 0
+    done = 0; seen_keys = set()
+    # step palettes for the native confirmation: the solver's own step values first, then exactly representable grid steps,
+    # sub-millisecond steps, mixed and very long steps.  Oracle (a): on grid steps the split schedule and the single step end
+    # on identical values; oracle (b), any steps: the real animator agrees after every operation with the reference animator
+    # of replay_anim, whose time in state is the plain sum of Duration::from_secs_f32(step) (the documented accumulation).
+    palettes = [None, [0.75, 1.25, 0.5], [0.0005, 0.0005, 0.0005], [2.0 ** -11, 2.0 ** -11, 2.0 ** -12], [0.25, 0.0005, 0.75], [1000.0, 0.5, 100000.0], [0.001, 0.002, 0.004]]
     for _, config, s in sats[:40]:
         if done >= 2: break
         ops = [tuple(o) for o in s['ops']]
-        # native: split schedule vs single step with exactly representable steps
-        pre = [o for o in ops if True]
-        sched = []
-        for o in ops:
-            sched.append(('adv', 0.0) if o[0] == 'adv0' else o)
-        cases = []
-        steps = [0.75, 1.25, 0.5]
-        it = iter(steps)
-        split_ops = [('adv:%s' % (0.0 if o[0] == 'adv0' else next(it, 0.25)) if o[0] in ('adv', 'adv0') else 'set:%d' % o[1]) for o in ops]
-        npre = len(ops) - (2 if s['tail'] == 'split2' else 3 if s['tail'] in ('split3', 'zero-mid') else 1)
-        tail_sum = sum(float(x[4:]) for x in split_ops[npre:])
-        single_ops = split_ops[:npre] + (['adv:%s' % tail_sum] if s['tail'] != 'zero' else [])
         cfgnames = ['none' if c is None else ('merged' if len(c) > 1 else 'single') for c in config]
-        nat = run_replay([{'kind': 'animator_history', 'config': cfgnames, 'ops': split_ops}, {'kind': 'animator_history', 'config': cfgnames, 'ops': single_ops}], 'dev', 'replay_anim')
-        check.traces_validated += 1
-        la = nat[0]['trace'].split()[-1] if nat[0].get('trace') else None
-        lb = nat[1]['trace'].split()[-1] if nat[1].get('trace') else '3.0'
-        if la != lb:
-            check.report_violation(f'schedule_{done}', 'C06:schedule:' + ','.join(split_ops), f'config {cfgnames}: {split_ops} ends at x={la} but {single_ops} ends at x={lb}', {'kind': 'animator_history', 'config': cfgnames, 'ops': split_ops})
-            done += 1
+        npre = len(ops) - (2 if s['tail'] == 'split2' else 3 if s['tail'] in ('split3', 'zero-mid') else 1)
+        for pal in palettes:
+            if pal is None:
+                if not s.get('dts'): continue
+                import struct as _st
+                vals = [_st.unpack('>f', _st.pack('>I', b))[0] for b in s['dts']]
+                if any(v != v or v < 0 or v > 1e12 for v in vals): continue
+                split_ops = [('adv:0x%08x' % (0 if o[0] == 'adv0' else s['dts'][i])) if o[0] in ('adv', 'adv0') else 'set:%d' % o[1] for i, o in enumerate(ops)]
+                single_ops = None
+            else:
+                it = iter(pal)
+                split_ops = [('adv:%r' % (0.0 if o[0] == 'adv0' else next(it, 0.25)) if o[0] in ('adv', 'adv0') else 'set:%d' % o[1]) for o in ops]
+                single_ops = None
+                if pal == palettes[1]:
+                    tail_sum = sum(float(x[4:]) for x in split_ops[npre:])
+                    single_ops = split_ops[:npre] + (['adv:%r' % tail_sum] if s['tail'] != 'zero' else [])
+            cases = [{'kind': 'animator_history', 'config': cfgnames, 'ops': split_ops}]
+            if single_ops is not None: cases.append({'kind': 'animator_history', 'config': cfgnames, 'ops': single_ops})
+            nat = run_replay(cases, 'dev', 'replay_anim')
+            check.traces_validated += 1
+            if single_ops is not None:
+                la = nat[0]['trace'].split()[-1] if nat[0].get('trace') else None
+                lb = nat[1]['trace'].split()[-1] if nat[1].get('trace') else '3.0'
+                if la != lb:
+                    check.report_violation(f'schedule_{done}', 'C06:schedule:' + ','.join(split_ops), f'config {cfgnames}: {split_ops} ends at x={la} but {single_ops} ends at x={lb}', cases[0])
+                    done += 1; break
+            if nat[0].get('mismatch') and not nat[0].get('panic'):
+                if (tuple(cfgnames), tuple(split_ops)) in seen_keys: break
+                seen_keys.add((tuple(cfgnames), tuple(split_ops)))
+                check.report_violation(f'schedule_{done}', 'C06:schedule:' + ','.join(split_ops), f'config {cfgnames}: schedule {split_ops}: the animator does not show the values at the accumulated time: {nat[0].get("detail")}', cases[0])
+                done += 1; break
     if sats and not done:
         check.inconclusive.append(f'{len(sats)} solver counterexamples, none reproduced natively (first: {sats[0][2]})')
     check.samples = [r['sample'] for r in results[:6] if r['sample']]
